@@ -269,3 +269,19 @@ def run(prop, tier, seed):
                         "the parser's floats", "texts are bounded as described in the rule"],
         "wall_s": round(time.time() - started, 2), "violations": nviol})
     return status
+
+
+def replay(payload):
+    import harness.rig  # noqa: F401
+    event = payload["event"]
+    if event["k"] == "params":
+        events = [observe_params(event["text"])]
+    elif event["k"] == "lines":
+        events = observe_lines(event["src"])
+    else:
+        events = observe_lines(event.get("rendered", ""))
+    verdicts = common.validate_traces("TraceText", "TraceText.cfg", [{"id": 1, "ev": events}],
+                                      "replay")
+    fails = [v for v in verdicts[0]["v"] if v["p"] == payload["property"]]
+    print("replay verdict for %s: %s" % (payload["property"], json.dumps(fails or "ok")))
+    return 1 if fails else 0
